@@ -174,6 +174,8 @@ pub struct ProbeLog {
   pub finish_after: AtomicUsize,
   /// fault: k > 0 = panic once, right after the k-th notification was recorded
   pub panic_at: AtomicUsize,
+  /// fault: the callback takes this much (virtual) time before it returns
+  pub busy_ns: std::sync::atomic::AtomicU64,
 }
 
 impl ProbeLog {
@@ -207,6 +209,10 @@ impl ProbeLog {
     };
     if self.yield_inside.load(SeqCst) {
       harness_yield("probe-callback");
+    }
+    let busy = self.busy_ns.load(SeqCst);
+    if busy > 0 {
+      sh.advance_to(sh.now().saturating_add(busy));
     }
     self.inside.fetch_sub(1, SeqCst);
     let out = sh.stamp();
